@@ -21,7 +21,7 @@ BOUNDED = {
  'C04': ('degrees of the minimal image, minimal images of covers, totality of morphisms; fold / is_minimal / minimal_image (quotient by the coarsest congruence) are ALSO decided deductively',
          'connected complete corpus symbols of size <= 5, their oriented covers, all covers with <= 4 sheets of six one- and two-chamber symbols: is_minimal / size of '
          'minimal_image against the coarsest degree-respecting congruence computed by partition refinement; a symbol maps onto its minimal image; covers and base have '
-         'minimal images of equal size; morphism None against brute force over all maps for sizes <= 4'),
+         'minimal images of equal size; morphism None against brute force over all maps for sizes <= 4; the automorphism list of every connected complete corpus symbol of size <= 6 (both symbol representations) against brute force over all permutations'),
  'C05': ('orientedness / sheet number of oriented_cover, covers(), finite_universal_cover (the deductive contracts decide the covering property and the degrees of cover / oriented_cover / as_partial_dsym; covers() and the universal cover depend on the fundamental group and the low-index enumeration)',
          'complete corpus symbols of size <= 5: projection commutes with every operation and preserves every degree m(i, i+1); the oriented cover is oriented, connected for a '
          'connected base, and has one sheet iff the base is oriented (bipartite and loopless, computed independently); covers(ds, k), k <= 3, of seven one- to four-chamber symbols: '
